@@ -24,6 +24,9 @@ def run(tier, seed):
     progs = [p for p in sets.singles(endians=("<", ">")) if not any(k in sets.HEAVY for k in p.kinds)]
     if tier == "quick":
         progs = progs[::2]
+    from checks.t2util import prove_summaries
+
+    prove_summaries(rep, tier)
     r2 = run_cases([("t2.cases", "make_switch", (p.to_json(),)) for p in progs])
     rep.add_case_results(r2, "T2")
     rep.programs = len(progs)
